@@ -539,7 +539,7 @@ impl<'a> Iterator for FinalStateIterator<'a> {
     }
 }
 
-#[derive(Debug)]
+#[derive(Debug, Clone)]
 struct StateInConstruction {
     is_final: bool,
     default_successor: Option<usize>,
@@ -716,9 +716,11 @@ impl<T: Eq + Hash + Clone> AutomatonBuilder<T> {
         let n = self.size;
         let mut num_final_states = 0;
         let mut state_array = Vec::with_capacity(n);
-        for (i, s) in self.states.iter_mut().enumerate() {
-            // check the transitions and default successor given by the caller
-            // before cleanup rewrites them
+        for (i, s) in self.states.iter().enumerate() {
+            // work on a copy: the builder keeps the transitions and default
+            // successors given by the caller, so it can be extended and built again
+            let mut s = s.clone();
+            // check the caller's specification before cleanup rewrites it
             let spec = s.make_partition()?;
             if s.default_successor.is_none() && !spec.empty_complement() {
                 return Err(Error::MissingDefaultSuccessor);
@@ -759,7 +761,8 @@ impl<T: Eq + Hash + Clone> AutomatonBuilder<T> {
         let num_states = self.size;
         let mut num_final_states = 0;
         let mut state_array = Vec::with_capacity(num_states);
-        for (i, s) in self.states.iter_mut().enumerate() {
+        for (i, s) in self.states.iter().enumerate() {
+            let mut s = s.clone();
             s.cleanup();
             let p = s.make_partition().unwrap();
             let successor = s.make_successor(&p);
